@@ -129,6 +129,7 @@ pub struct Writer {
     pub previous_item: Option<(UserKey, ValueType)>,
 }
 
+pub open spec fn pitem(o: Option<(UserKey, ValueType)>) -> Option<(int, ValueType)> { match o { Some((k, t)) => Some((k.rank(), t)), None => None } }
 pub open spec fn okey(o: Option<UserKey>) -> Option<int> { match o { Some(k) => Some(k.rank()), None => None } }
 
 impl Writer {
@@ -166,6 +167,9 @@ impl Writer {
             &&& n.meta.lowest_seqno == (if item.key.seqno < o.meta.lowest_seqno { item.key.seqno } else { o.meta.lowest_seqno })
             &&& n.meta.highest_seqno == (if item.key.seqno > o.meta.highest_seqno { item.key.seqno } else { o.meta.highest_seqno })     // C18.1
             &&& n.filter_writer.keys == (if newkey && o.bloom_policy.active { o.filter_writer.keys.push(item.key.user_key.rank()) } else { o.filter_writer.keys })
+            // a weak tombstone directly followed by a value of the same key is reclaimable - wherever block boundaries fall
+            &&& n.meta.weak_tombstone_reclaimable_count == o.meta.weak_tombstone_reclaimable_count + (if item.key.value_type == ValueType::Value && pitem(o.previous_item) == Some((item.key.user_key.rank(), ValueType::WeakTombstone)) { 1int } else { 0 })
+            &&& pitem(n.previous_item) == Some((item.key.user_key.rank(), item.key.value_type))
         }),/*-*/
     {
         let value_type = item.key.value_type;
